@@ -134,13 +134,36 @@ def strictly_increasing(piv):
     return all(a < b for a, b in zip(p, p[1:]))
 
 
+def count_onehot(bits, upto=None):
+    """DP table T with T[c][j] = 'exactly j of bits[0..c-1] are true' (E|bool), pure boolean (no arithmetic)"""
+    n = len(bits)
+    T = [[True] + [False] * n]
+    for c in range(n):
+        prev = T[-1]
+        row = []
+        for j in range(n + 1):
+            stay = X.And(prev[j], X.Not(bits[c]))
+            up = X.And(prev[j - 1], bits[c]) if j > 0 else False
+            row.append(X.Or(stay, up))
+        T.append(row)
+    return T
+
+
+def count_is(bits, k):
+    """exactly k of the bits are true"""
+    if k < 0 or k > len(bits):
+        return False
+    return count_onehot(bits)[len(bits)][k]
+
+
 def rref_form(Bm, piv, upto=None):
     """Bm (m x n bits) is in reduced row echelon form with pivot columns `piv`:
        piv strictly increasing; with t(c) = number of pivots in columns < c:
          p_c      =>  column c is the unit vector e_{t(c)}
          always   =>  Bm[r, c] = 0 for every row r >= t(c) + p_c       (rows below the rank are zero, and each row is
                                                                        zero to the left of its leading entry)
-       `upto` restricts the statement to columns < upto (loop invariant)."""
+       `upto` restricts the statement to columns < upto (loop invariant).
+       t(c) is encoded one-hot (T[c][j] = 'exactly j pivots before column c'), so the formula is purely boolean."""
     Bm = np.asarray(Bm, dtype=object)
     m, n = Bm.shape
     k = n if upto is None else upto
@@ -150,15 +173,22 @@ def rref_form(Bm, piv, upto=None):
         conds.append(X.And(*[X.Implies(g, B(S.land(v >= 0, v < n))) for g, v in piv.slots]))
     else:
         conds.append(all(0 <= c < n for c in piv))
-    t = 0            # number of pivots among columns < c  (int or SL)
+    T = count_onehot(p[:k])
     for c in range(k):
-        for r in range(m):
-            below = B(t + (SB(p[c]) if isinstance(p[c], X.E) else int(p[c])) <= r)
-            is_t = B(veq(t, r))
-            conds.append(X.Implies(below, X.Not(bit(Bm[r, c]))))
-            conds.append(X.Implies(X.And(p[c], is_t), bit(Bm[r, c])))
-            conds.append(X.Implies(X.And(p[c], X.Not(is_t)), X.Not(bit(Bm[r, c]))))
-        # a pivot needs a row
-        conds.append(X.Implies(p[c], B(t <= m - 1)))
-        t = t + (SB(p[c]) if isinstance(p[c], X.E) else int(p[c]))
+        for j in range(min(c, m) + 1):
+            tj = T[c][j]                      # exactly j pivots among columns < c
+            if tj is False:
+                continue
+            for r in range(m):
+                e = bit(Bm[r, c])
+                if r > j:
+                    conds.append(X.Implies(tj, X.Not(e)))                         # below t(c)+p_c in any case
+                elif r == j:
+                    conds.append(X.Implies(X.And(tj, X.Not(p[c])), X.Not(e)))     # r >= t(c) when no pivot here
+                    conds.append(X.Implies(X.And(tj, p[c]), e))                    # the pivot entry
+                else:
+                    conds.append(X.Implies(X.And(tj, p[c]), X.Not(e)))            # unit column above the pivot
+        # a pivot needs a row: not (p_c and t(c) >= m)
+        for j in range(m, c + 1):
+            conds.append(X.Not(X.And(T[c][j], p[c])))
     return mkbool(X.And(*conds))
